@@ -1,4 +1,6 @@
 import LexVerif.Proof.WriteFloatSafe
+import LexVerif.Proof.WriteFloatFixed
+import LexVerif.Props.C03
 import LexVerif.Proof.WriteFloatDragon
 /-!
 # C09 — documented buffer bound, no out-of-slice access (property theorems)
@@ -40,31 +42,29 @@ structure DecimalCall (feats : Features) (f : Fmt) (fmt : Format) (o : WOpts) (b
   digitsN : ds.length ≤ mantNeed f
   range : -324 ≤ sci ∧ sci ≤ 308
 
-/-- `write_float` on the decimal path, reduced to the back-end on the sub-slice after the sign -/
-theorem writeFloat_eq (feats : Features) (f : Fmt) (fmt : Format) (o : WOpts) (bits : Nat) (ds : List Nat) (sci : Int)
-    (buf : List Nat) (hc : DecimalCall feats f fmt o bits ds sci)
-    (hbuf : bufferSizeConst feats f fmt o ≤ buf.length) :
-    writeFloat feats f fmt o false bits (ds, sci) buf =
+/-- `write_float` (with `bound` in `check_buffer`) on the decimal path, reduced to the back-end on the sub-slice after the sign -/
+theorem writeFloatB_eq (bound : Nat) (feats : Features) (f : Fmt) (fmt : Format) (o : WOpts) (bits : Nat) (ds : List Nat)
+    (sci : Int) (buf : List Nat) (hc : DecimalCall feats f fmt o bits ds sci) (h64 : 64 ≤ bound) (hbuf : bound ≤ buf.length) :
+    writeFloatB bound feats f fmt o false bits (ds, sci) buf =
       finalCheck (onTail (signBytes feats f fmt bits) (buf.drop (signBytes feats f fmt bits).length)
           (decimalB fmt feats f false ds sci o)) := by
-  have h64 := (bufferSizeConst_ge feats f fmt o hc.radix10).2
   have hS := signBytes_length_le feats f fmt bits
-  unfold writeFloat
+  unfold writeFloatB
   rw [if_neg (by omega)]
   simp only [hc.valid, hc.mixed, not_true_eq_false, if_false, hc.finite, Bool.false_eq_true, not_false_eq_true, if_true,
     hc.decimal]
   unfold signBytes at hS ⊢
   rw [if_neg (by omega)]
 
-/-- **C09 `float_bound`** (decimal path, both back-ends). -/
-theorem float_bound (feats : Features) (f : Fmt) (fmt : Format) (o : WOpts) (bits : Nat) (ds : List Nat) (sci : Int)
-    (buf : List Nat) (hc : DecimalCall feats f fmt o bits ds sci) (hsafe : SafeOpts feats f fmt o)
-    (hbuf : bufferSizeConst feats f fmt o ≤ buf.length) :
-    ∃ w, writeFloat feats f fmt o false bits (ds, sci) buf = .done w ∧
-      w.len ≤ bufferSizeConst feats f fmt o ∧ w.hi ≤ bufferSizeConst feats f fmt o ∧ w.bytes.length = buf.length := by
-  rw [writeFloat_eq feats f fmt o bits ds sci buf hc hbuf]
+/-- whenever sign + slice need of the back-end fit a bound (≥ 64) that the buffer satisfies, the call returns, returns at
+most `bound` bytes and writes no index `≥ bound` -/
+theorem float_bound_of (bound : Nat) (feats : Features) (f : Fmt) (fmt : Format) (o : WOpts) (bits : Nat) (ds : List Nat)
+    (sci : Int) (buf : List Nat) (hc : DecimalCall feats f fmt o bits ds sci) (h64 : 64 ≤ bound)
+    (hneed : (signBytes feats f fmt bits).length + needDec fmt feats f ds sci o ≤ bound) (hbuf : bound ≤ buf.length) :
+    ∃ w, writeFloatB bound feats f fmt o false bits (ds, sci) buf = .done w ∧
+      w.len ≤ bound ∧ w.hi ≤ bound ∧ w.bytes.length = buf.length := by
+  rw [writeFloatB_eq bound feats f fmt o bits ds sci buf hc h64 hbuf]
   have hS := signBytes_length_le feats f fmt bits
-  have hneed := need_le_bound feats f fmt o ds sci _ hc.radix10 hc.expRadix10 hc.opts hc.digits1 hc.digitsN hc.range hS hsafe
   have h32 : ds.length ≤ 32 := by have := mantNeed_le f; have := hc.digitsN; omega
   generalize signBytes feats f fmt bits = sign at hS hneed ⊢
   unfold onTail
@@ -91,6 +91,52 @@ theorem float_bound (feats : Features) (f : Fmt) (fmt : Format) (o : WOpts) (bit
     · dsimp only; omega
     · dsimp only; split <;> omega
     · simp only [List.length_append, hbl]; omega
+
+/-- **C09 `float_bound`** (decimal path, both back-ends), current `buffer_size_const`: needs `SafeOpts`. -/
+theorem float_bound (feats : Features) (f : Fmt) (fmt : Format) (o : WOpts) (bits : Nat) (ds : List Nat) (sci : Int)
+    (buf : List Nat) (hc : DecimalCall feats f fmt o bits ds sci) (hsafe : SafeOpts feats f fmt o)
+    (hbuf : bufferSizeConst feats f fmt o ≤ buf.length) :
+    ∃ w, writeFloat feats f fmt o false bits (ds, sci) buf = .done w ∧
+      w.len ≤ bufferSizeConst feats f fmt o ∧ w.hi ≤ bufferSizeConst feats f fmt o ∧ w.bytes.length = buf.length :=
+  float_bound_of _ feats f fmt o bits ds sci buf hc (bufferSizeConst_ge feats f fmt o hc.radix10).2
+    (need_le_bound feats f fmt o ds sci _ hc.radix10 hc.expRadix10 hc.opts hc.digits1 hc.digitsN hc.range
+      (signBytes_length_le feats f fmt bits) hsafe) hbuf
+
+/-- **C09 `float_bound_fixed`**: with the repaired `buffer_size_const` (`fixes/C09-buffer-size-const.diff`) the bound
+holds for ALL valid options and valid decimal formats — no `SafeOpts` — on both back-ends: the call returns, the result
+and every index written lie below `bufferSizeConstFixed`. -/
+theorem float_bound_fixed (feats : Features) (f : Fmt) (fmt : Format) (o : WOpts) (bits : Nat) (ds : List Nat) (sci : Int)
+    (buf : List Nat) (hc : DecimalCall feats f fmt o bits ds sci)
+    (hbuf : bufferSizeConstFixed feats f fmt o ≤ buf.length) :
+    ∃ w, writeFloatFixed feats f fmt o false bits (ds, sci) buf = .done w ∧
+      w.len ≤ bufferSizeConstFixed feats f fmt o ∧ w.hi ≤ bufferSizeConstFixed feats f fmt o ∧
+      w.bytes.length = buf.length := by
+  have hneed := need_le_fixed feats f fmt o ds sci _ hc.radix10 hc.expRadix10 hc.opts hc.digits1 hc.digitsN hc.range
+    (signBytes_length_le feats f fmt bits)
+  have h64 : 64 ≤ bufferSizeConstFixed feats f fmt o := by
+    have := (bufferSizeConst_ge feats f fmt o hc.radix10).2
+    have := bufferSizeConst_le_fixed feats f fmt o hc.opts
+    omega
+  exact float_bound_of _ feats f fmt o bits ds sci buf hc h64 hneed hbuf
+
+/-- the repair only ever enlarges the bound: no existing caller's buffer becomes too small for `check_buffer` … it can
+only become too small if it was sized by the OLD formula and is now compared with the new one, which is why the fix must
+land in `buffer_size_const` itself (callers obtain the size from it). -/
+theorem fixed_ge_current (feats : Features) (f : Fmt) (fmt : Format) (o : WOpts) (hno : NumOpts o) :
+    bufferSizeConst feats f fmt o ≤ bufferSizeConstFixed feats f fmt o :=
+  bufferSizeConst_le_fixed feats f fmt o hno
+
+/-- the three witnesses of the current formula succeed under the repaired one -/
+example :
+    bufferSizeConstFixed {} LexVerif.Spec.f64 ⟨0xa0a0a0000000000000000000000000c⟩ { maxDigits := some 10, negBreak := some (-100) } = 130 ∧
+    writeFloatFixed {} LexVerif.Spec.f64 ⟨0xa0a0a0000000000000000000000000c⟩ { maxDigits := some 10, negBreak := some (-100) } false
+      0x2b2bff2ee48e0530 ([1], -100) (List.replicate 130 170) ≠ .panic ∧
+    writeFloatFixed {} LexVerif.Spec.f64 ⟨0xa0a0a0000000000000000000000000c⟩ { minDigits := some 100 } false 0x01b01297d23ab683
+      ([1, 5], -300) (List.replicate 114 170) ≠ .panic ∧
+    bufferSizeConstFixed {} LexVerif.Spec.f64 ⟨0xa0a0a0000000000000000000000000c⟩ { minDigits := some 100 } = 114 ∧
+    writeFloatFixed { compact := true } LexVerif.Spec.f64 ⟨0xa0a0a0000000000000000000000000c⟩
+      { maxDigits := some 1, posBreak := some 100 } false 0xd4b249ad2594c37d ([1], 100) (List.replicate 130 170) ≠ .panic := by
+  decide +kernel
 
 /-- the full statement (no option exclusion) — false on the current code, see the witnesses below -/
 def float_bound_full : Prop :=
@@ -152,12 +198,12 @@ theorem decimalB_facts (fmt : Format) (feats : Features) (f : Fmt) (ds : List Na
 /-- **C09 `short_buffer_safe`**: whatever the buffer length, format, options and value, the model of `write_float`
 (decimal back-ends and special values) never reaches `fault`; a result, if any, lies inside the buffer and nothing at or
 beyond `buf.length` was written (`hi ≤ buf.length`).  Non-decimal back-ends are reported as `.other` (not modelled here). -/
-theorem short_buffer_safe (feats : Features) (f : Fmt) (fmt : Format) (o : WOpts) (bits : Nat) (ds : List Nat) (sci : Int)
-    (buf : List Nat) (hds : 1 ≤ ds.length) (hds32 : ds.length ≤ 32) (hmx : o.maxDigits ≠ some 0) :
-    writeFloat feats f fmt o false bits (ds, sci) buf ≠ .fault ∧
-    ∀ w, writeFloat feats f fmt o false bits (ds, sci) buf = .done w →
+theorem short_buffer_safe_of (bound : Nat) (feats : Features) (f : Fmt) (fmt : Format) (o : WOpts) (bits : Nat)
+    (ds : List Nat) (sci : Int) (buf : List Nat) (hds : 1 ≤ ds.length) (hds32 : ds.length ≤ 32) (hmx : o.maxDigits ≠ some 0) :
+    writeFloatB bound feats f fmt o false bits (ds, sci) buf ≠ .fault ∧
+    ∀ w, writeFloatB bound feats f fmt o false bits (ds, sci) buf = .done w →
       w.bytes.length = buf.length ∧ w.len ≤ buf.length ∧ w.hi ≤ buf.length := by
-  unfold writeFloat
+  unfold writeFloatB
   dsimp only
   split
   · exact ⟨by simp, by intro w h; cases h⟩
@@ -201,6 +247,22 @@ theorem short_buffer_safe (feats : Features) (f : Fmt) (fmt : Format) (o : WOpts
     · split
       · exact onTail_facts _ _ _ (writeSpecial_facts _ _).1 (writeSpecial_facts _ _).2
       · exact onTail_facts _ _ _ (writeSpecial_facts _ _).1 (writeSpecial_facts _ _).2
+
+/-- **C09 `short_buffer_safe`** (current formula in `check_buffer`) -/
+theorem short_buffer_safe (feats : Features) (f : Fmt) (fmt : Format) (o : WOpts) (bits : Nat) (ds : List Nat) (sci : Int)
+    (buf : List Nat) (hds : 1 ≤ ds.length) (hds32 : ds.length ≤ 32) (hmx : o.maxDigits ≠ some 0) :
+    writeFloat feats f fmt o false bits (ds, sci) buf ≠ .fault ∧
+    ∀ w, writeFloat feats f fmt o false bits (ds, sci) buf = .done w →
+      w.bytes.length = buf.length ∧ w.len ≤ buf.length ∧ w.hi ≤ buf.length :=
+  short_buffer_safe_of _ feats f fmt o bits ds sci buf hds hds32 hmx
+
+/-- … and with the repaired formula -/
+theorem short_buffer_safe_fixed (feats : Features) (f : Fmt) (fmt : Format) (o : WOpts) (bits : Nat) (ds : List Nat)
+    (sci : Int) (buf : List Nat) (hds : 1 ≤ ds.length) (hds32 : ds.length ≤ 32) (hmx : o.maxDigits ≠ some 0) :
+    writeFloatFixed feats f fmt o false bits (ds, sci) buf ≠ .fault ∧
+    ∀ w, writeFloatFixed feats f fmt o false bits (ds, sci) buf = .done w →
+      w.bytes.length = buf.length ∧ w.len ≤ buf.length ∧ w.hi ≤ buf.length :=
+  short_buffer_safe_of _ feats f fmt o bits ds sci buf hds hds32 hmx
 
 /-! ### non-vacuity and witnesses -/
 
@@ -307,5 +369,47 @@ example : intFits { powerOfTwo := true, radix := true } ⟨"i8", 8, true, false,
 `format` + `required_mantissa_sign`: `u8` 255 needs 3 digits + 1 sign = 4 > `FORMATTED_SIZE_DECIMAL` = 3. -/
 theorem int_plus_sign_exception :
     (numeral 10 255).length + 1 > intBufferSizeConst {} "u8" 10 := by decide +kernel
+
+/-! ### the repaired integer size (`fixes/C09-unsigned-plus-sign.diff`)
+
+`lexical_write_integer::Options::buffer_size_const` + 1 when the format requires a mantissa sign (`format` feature). -/
+
+/-- on the dumped size tables -/
+def intBufferSizeConstFixed (feats : Features) (name : String) (radix : Nat) (reqSign : Bool) : Nat :=
+  intBufferSizeConst feats name radix + (if feats.format = true ∧ reqSign = true then 1 else 0)
+
+/-- **`int_bound_fixed`**: with the repaired size, sign (`-`, or the required `+`, also for unsigned types) plus numeral
+always fit; the repaired size is never smaller than the current one. -/
+theorem int_bound_fixed (feats : Features) (t : Gen.Sizes.Ty) (r v : Nat) (reqSign : Bool) (hfit : intFits feats t r = true)
+    (hr : 2 ≤ r) (hv : v ≤ magOf t) (hsign : feats.format = true ∧ reqSign = true) :
+    (numeral r v).length + 1 ≤ intBufferSizeConstFixed feats t.name r reqSign ∧
+    intBufferSizeConst feats t.name r ≤ intBufferSizeConstFixed feats t.name r reqSign := by
+  have h := int_bound feats t r v hfit hr hv
+  unfold intBufferSizeConstFixed
+  rw [if_pos hsign]
+  omega
+
+/-- on C03's writer model: the repaired size is at least the size under which C03 proves the integer writers correct
+(`requiredSize` = documented size + 1 for unsigned types with a required `+`) … -/
+def writeIntSizeFixed (feats : Features) (t : IntTy) (radix : Nat) (reqSign : Bool) : Nat :=
+  LexVerif.Model.WriteInt.bufferSizeConst feats t radix + (if feats.format = true ∧ reqSign = true then 1 else 0)
+
+theorem requiredSize_le_fixed (feats : Features) (t : IntTy) (radix : Nat) (reqSign : Bool) :
+    LexVerif.Model.WriteInt.requiredSize feats t radix reqSign ≤ writeIntSizeFixed feats t radix reqSign ∧
+    LexVerif.Model.WriteInt.bufferSizeConst feats t radix ≤ writeIntSizeFixed feats t radix reqSign := by
+  unfold LexVerif.Model.WriteInt.requiredSize writeIntSizeFixed
+  repeat' split
+  all_goals simp_all
+
+/-- … hence, with the repair, a buffer of the documented size suffices for every `compact` integer write, unsigned `+`
+included (C03's `writeInt_correct_compact` transferred). -/
+theorem writeInt_fixed_size_suffices_compact (feats : Features) (t : IntTy) (radix : Nat) (reqSign checkValid : Bool)
+    (v : Int) (buffer : LexVerif.Model.WriteInt.Buf) (hc : feats.compact = true)
+    (hwf : LexVerif.Model.WriteInt.FeaturesWF feats) (hbits : LexVerif.Model.WriteInt.ValidBits t.bits)
+    (hvalid : LexVerif.Model.WriteInt.validRadix feats radix = true) (hv : t.inRange v)
+    (hbuf : writeIntSizeFixed feats t radix reqSign ≤ buffer.length) :
+    ∃ out, LexVerif.Model.WriteInt.writeInt feats t radix reqSign checkValid v buffer = .ok out :=
+  ⟨_, LexVerif.Props.C03.writeInt_correct_compact feats t radix reqSign checkValid v buffer hc hwf hbits hvalid hv
+    (Nat.le_trans (requiredSize_le_fixed feats t radix reqSign).1 hbuf)⟩
 
 end LexVerif.Props.C09
